@@ -695,6 +695,24 @@ def gen_case(rng, prop, mix):
         stmts = []
         lk = {"_a0": "a", "_a1": "a", "_h0": "h", "_t0": "?", "_t1": "?"}
         for _ in range(rng.randint(3, mix["max_ops"] // nclients + 3)):
+            if rng.random() < mix.get("lookalike", 0.0):
+                # self insertion hidden behind a sibling that merely looks the same: [[copy of a], [a]]
+                a = pick_container(rng, kinds, lk, "a")
+                if a[0] in ("g", "l") and a != ["l", "_a1"]:
+                    sid[0] += 1
+                    stmts.append({"id": sid[0], "op": "copy", "args": [a], "dst": "_a1"})
+                    twin = ["arr", [["arr", [["l", "_a1"]]], ["arr", [a]]]]
+                    how = rng.choice(["set", "append", "pushBack", "pushBackHm", "pushBackUnique"])
+                    sid[0] += 1
+                    if how == "set":
+                        stmts.append({"id": sid[0], "op": "set", "args": [a, ["arr", [["n", rng.choice([0, 1, 5])], twin]]], "dst": None})
+                    elif how == "append":
+                        stmts.append({"id": sid[0], "op": "append", "args": [a, ["arr", [twin]]], "dst": None})
+                    elif how == "pushBackHm":
+                        stmts.append({"id": sid[0], "op": "pushBack", "args": [a, ["hm", [[["s", "k"], twin]]]], "dst": None})
+                    else:
+                        stmts.append({"id": sid[0], "op": how, "args": [a, twin], "dst": None})
+                    continue
             sid[0] += 1
             stmts.append(gen_stmt(rng, sid[0], kinds, lk, mix))
         clients.append(stmts)
@@ -735,6 +753,8 @@ def gen_stmt(rng, sid, kinds, lk, mix):
     H = lambda: pick_container(rng, kinds, lk, "h")
     st = {"id": sid, "op": op, "args": [], "dst": None}
     refs_a = [["g", i] for i, k in enumerate(kinds) if k == "a"] + [["l", "_a0"], ["l", "_a1"]]
+    # keys: live arrays, and arrays that hold a live hashmap (captured by value all the same)
+    refs_a = refs_a + [["arr", [["g", i]]] for i, k in enumerate(kinds) if k == "h"] + [["arr", [["n", 1], ["l", "_h0"]]]]
     if op in ("pushBack", "pushBackUnique"):
         a = A()
         r = rng.random()
